@@ -314,3 +314,44 @@ Example service_nonvacuous :
   /\ map fst (ctxs s) = [3] /\ nq s = [] /\ xq s = [] /\ height s = 8.
 Proof. vm_compute. repeat split. Qed.
 End S.
+
+(** ** farm, linked to the full farm model of C05/C06 ([Farm/Model.v]): the two hypotheses of
+    module [F] ([op_wf]: AdjustPool's duration is not negative; [op_clean]: no Refund of the end
+    blocker fails in updatePool) are facts of that model. *)
+From Irismod Require Queues.LinkFarm.
+Module FL.
+Import Irismod.Farm.Proofs Irismod.Queues.LinkFarm.
+
+(** Every step of the full model from a state satisfying its invariant is matched by one CLEAN
+    operation of the queue model ([R]: same height, id sequence, queue entries, and per pool the
+    same start / end height, editable flag and creator; a pool closed in the queue model has no
+    budget left in the full model). *)
+Theorem farm_link_step :
+  forall fs qs st, inv fs -> valid_step st -> R fs qs -> QP.QInv qs ->
+    exists o, QP.op_clean o /\ R (step_state fs st) (fst (Q.step qs o)).
+Proof. exact sim_step. Qed.
+Print Assumptions farm_link_step.
+
+(** Every history of the full model (valid genesis, actors as senders — satisfiable:
+    [Props.C05.c05_nonvacuous]) is mirrored by a clean history of the queue model. *)
+Theorem farm_link_simulation :
+  forall b h steps, genesis_ok b h -> Forall valid_step steps ->
+    exists ops, Forall QP.op_clean ops /\ R (run (init b h) steps) (Q.run (Q.init h) ops).
+Proof. exact Irismod.Queues.LinkFarm.farm_link_simulation. Qed.
+Print Assumptions farm_link_simulation.
+
+(** Hence, with NO hypothesis on the history: in every reachable state of the full model the
+    abstract queue state satisfies [QInv] and has no stuck pool; a pool without queue entry has
+    ended at a height already reached, has no budget left (its Refund ran to the end) and has
+    no entry at all; a queued pool has exactly the entry of its end height, not behind the
+    current height. *)
+Theorem farm_exactly_once_unconditional :
+  forall s, reachable s ->
+  exists qs, R s qs /\ QP.QInv qs /\ QP.NoStuck qs
+  /\ (forall pid p, get pid (pools s) = Some p -> in_queue (queue s) (p_end p, pid) = false ->
+        p_end p <= height s /\ Forall (fun r => r_rem r = 0) (p_rules p) /\ forall e, in_queue (queue s) (e, pid) = false)
+  /\ (forall pid p, get pid (pools s) = Some p -> in_queue (queue s) (p_end p, pid) = true ->
+        height s <= p_end p /\ forall e, in_queue (queue s) (e, pid) = true -> e = p_end p).
+Proof. exact farm_full_model_exactly_once. Qed.
+Print Assumptions farm_exactly_once_unconditional.
+End FL.
